@@ -113,6 +113,7 @@ type World struct {
 	PrevML         []model.Pair
 	SortAbsGot     []model.Pair
 	Skipped        bool // the last operation was skipped because of the list-length cap
+	spUsed         bool // a parameter list has been obtained from U (so obtaining it again is a pure read)
 }
 
 // A start "base\x1eref" is a URL parsed with a base (url.ParseRef(base, ref)).
@@ -189,6 +190,16 @@ func (w *World) Apply(o Op) {
 		return
 	}
 	w.Skipped = false
+	switch {
+	case o.Kind == "clone" || o.Kind == "resolve":
+		w.spUsed = false
+	case o.Kind == "handle" || strings.HasPrefix(o.Kind, "sp."):
+		defer func() {
+			if !w.Skipped {
+				w.spUsed = true
+			}
+		}()
+	}
 	w.Panic = safely(func() {
 		switch {
 		case isSetter(o.Kind):
@@ -238,8 +249,15 @@ func (w *World) Apply(o Op) {
 			// (memoised serializations going stale); on a tree where reads are pure the successor state is identical
 			// and deduplicated at once
 			_ = impl.ObserveFull(w.U)
-			for _, h := range w.Handles {
+			hs := w.Handles
+			if w.spUsed && len(hs) == 0 {
+				hs = []*url.SearchParams{w.U.SearchParams()} // exists already: obtaining it again creates nothing
+			}
+			for _, h := range hs {
 				_ = h.String()
+				for _, n := range []string{"a", "b", ""} {
+					_, _, _ = h.Get(n), h.GetAll(n), h.Has(n)
+				}
 			}
 		case o.Kind == "sp.append":
 			if w.MLCap > 0 && len(w.ML) >= w.MLCap {
